@@ -214,6 +214,10 @@ def check(repo: Repo) -> Result:
     share(res, r7, "C06", lambda t: c06.out_rule(repo, t, inventory(repo)), ["C06-R4"], min_keys=8)
     from rules import c01
 
+    from rules.ufunc import UfuncAnchors as _UA
+
+    r9 = res.rule("C07-R9", "np.power: the exponent applied to the unit is the exponent's own value (also for a scaled dimensionless base)", floor=3)
+    share(res, r9, "C04", lambda t: c04.power_gate(repo, t, _UA(repo)), ["C04-R6"], min_keys=3)
     r8 = res.rule("C07-R8", "get_units reports one unit per operand, in order (products over the operands' units - einsum, convolve, tensordot - need every factor, also when two operands share a unit)", floor=1)
     share(res, r8, "C01", lambda t: c01.merging_handlers(repo, t), ["C01-R4v"], want=lambda k: k == "get_units")
     return res
